@@ -164,6 +164,13 @@ func (b *Built) build(s *Spec) (res error) {
 		return errors.WithMessagef(c, Fmt3(S(0)), S(1), errors.Safe(S(2)))
 	case "stack":
 		return errors.WithStack(c)
+	case "stackdeep":
+		// a depth beyond the top of the stack: no frame is captured
+		return errors.WithStackDepth(c, 1000)
+	case "hintf0":
+		return errors.WithHintf(c, "lit "+esc(S(0)))
+	case "detailf0":
+		return errors.WithDetailf(c, "lit "+esc(S(0)))
 	case "hint":
 		return errors.WithHint(c, S(0))
 	case "detail":
@@ -299,6 +306,8 @@ func (b *Built) build(s *Spec) (res error) {
 		return &RMulti{S(0), xs}
 	case "umulticause":
 		return &UMultiCause{S(0), xs}
+	case "umultias":
+		return &UMultiAs{S(0), xs, &ULeafPtr{"as:" + S(0)}}
 	case "umulticauser":
 		return &UMultiCauser{S(0), xs}
 	}
